@@ -6,7 +6,7 @@ SPEC = {
     # transfer lemma (or makes the item unavailable) before any input is searched for
     "tie": ["tie/HandleEquiv.vo", "tie/ReprEquiv.vo", "tie/EditEquiv.vo"],
     "gen_items": ["src/bytes/raw/allocated.rs:slice_unchecked + explicit_clone", "src/bytes/raw.rs:range_unchecked + from_slice + normalized_from_vec",
-                  "src/bytes.rs:truncate + pop + shrink_to + push_slice; raw.rs:make_unique + take_vec; allocated.rs:shrink_to"],
+                  "src/bytes.rs:truncate pop shrink_to push_slice push clear repeat with_capacity as_mut_* to_mut_slice; raw.rs:make_unique take_vec; allocated.rs:shrink_to as_mut_*"],
     "tieA_required": True,
     "case_libs": ["theories/CasesBytes.vo"],
     "drivers": [{"driver": "bytes", "profiles": ["debug", "release"], "args": ["all", "focus=content"]}],
